@@ -944,3 +944,197 @@ Lemma calendar_inverse : forall y m d n,
   (let '(y', m', d') := ymd_of_ord n in ord_of_ymd y' m' d' = n /\ 1 <= m' <= 12 /\ 1 <= d' <= days_in_month y' m'
                                           /\ y' = year_of_ord n).
 Proof. intros. split; [apply ymd_of_ord_of_ymd | apply ord_of_ymd_of_ord]. Qed.
+
+(* ================================================================== 11. periods built from calendar dates
+   (from_ymd = from_python_date = from_iso_string = the second half of refrequent) *)
+
+(* ------------------------------------------------------------------ months and segments *)
+
+Ltac month12 m :=
+  let H := fresh in
+  assert (H : m = 1 \/ m = 2 \/ m = 3 \/ m = 4 \/ m = 5 \/ m = 6 \/ m = 7 \/ m = 8 \/ m = 9 \/ m = 10 \/ m = 11 \/ m = 12)
+    by lia;
+  repeat (destruct H as [H | H]); subst m.
+
+Lemma mts_spec : forall f m, is_regular_freq f = true -> 1 <= m <= 12 ->
+  let seg := month_to_segment f m in
+  1 <= seg <= f /\ seg_start_month f seg <= m <= seg_end_month f seg.
+Proof.
+  intros f m R M. destruct (regular_cases f R) as [-> | [-> | [-> | ->]]]; month12 m; vm_compute; repeat split; discriminate.
+Qed.
+
+Lemma mts_cases : forall m,
+  month_to_segment 1 m = 1 /\ month_to_segment 2 m = 1 + (m - 1) / 6 /\ month_to_segment 4 m = 1 + (m - 1) / 3 /\
+  month_to_segment 12 m = m.
+Proof. intros. repeat split; reflexivity. Qed.
+
+Lemma mts_mono : forall f a b, is_regular_freq f = true -> a <= b -> month_to_segment f a <= month_to_segment f b.
+Proof.
+  intros f a b R H. destruct (mts_cases a) as (A1 & A2 & A3 & A4). destruct (mts_cases b) as (B1 & B2 & B3 & B4).
+  destruct (regular_cases f R) as [-> | [-> | [-> | ->]]]; lia.
+Qed.
+
+(* every month of the seg-th period maps back to seg *)
+Lemma mts_of_segment : forall f seg m, is_regular_freq f = true -> 1 <= seg <= f ->
+  seg_start_month f seg <= m <= seg_end_month f seg -> month_to_segment f m = seg.
+Proof.
+  intros f seg m R S M. unfold seg_start_month, seg_end_month in M. destruct (mts_cases m) as (A1 & A2 & A3 & A4).
+  destruct (regular_cases f R) as [-> | [-> | [-> | ->]]];
+    [change (12 / 1) with 12 in M | change (12 / 2) with 6 in M | change (12 / 4) with 3 in M | change (12 / 12) with 1 in M];
+    lia.
+Qed.
+
+Lemma regular_pos : forall f, is_regular_freq f = true -> 0 < f.
+Proof. intros f R. destruct (regular_cases f R) as [-> | [-> | [-> | ->]]]; lia. Qed.
+
+Lemma from_ymd_regular : forall f y m d, is_regular_freq f = true ->
+  from_ymd f y m d = Ok (mkP f (y * f + month_to_segment f m - 1)).
+Proof.
+  intros f y m d R. unfold from_ymd. rewrite (regular_kind f R). unfold gen_reg_from_ymd. reflexivity.
+Qed.
+
+Lemma year_seg_of_serial : forall f y seg, 0 < f -> 1 <= seg <= f ->
+  (y * f + seg - 1) / f = y /\ (y * f + seg - 1) mod f + 1 = seg.
+Proof.
+  intros f y seg F S. replace (y * f + seg - 1) with ((seg - 1) + y * f) by lia.
+  rewrite Z.div_add, Z.mod_add by lia. rewrite Z.div_small, Z.mod_small by lia. lia.
+Qed.
+
+(* ------------------------------------------------------------------ (year, month, day) round trips *)
+
+(* regular: the date at ANY position converts back to the period *)
+Theorem ymd_roundtrip_regular : forall f s pos, is_regular_freq f = true ->
+  exists y m d, to_ymd pos (mkP f s) = Ok (y, m, d) /\ from_ymd f y m d = Ok (mkP f s) /\
+                y = s / f /\ seg_start_month f (s mod f + 1) <= m <= seg_end_month f (s mod f + 1) /\
+                1 <= d <= days_in_month y m.
+Proof.
+  intros f s pos R. pose proof (regular_pos f R) as F.
+  destruct (reg_to_ymd_spec f s R) as (A & C & mm & md & B & Bm & Bd).
+  pose proof (Z.mod_pos_bound s f F) as MB.
+  destruct (seg_months_range f (s mod f + 1) R ltac:(lia)) as (M1 & M2 & _).
+  assert (BACK : forall m, seg_start_month f (s mod f + 1) <= m <= seg_end_month f (s mod f + 1) ->
+                 forall d, from_ymd f (s / f) m d = Ok (mkP f s)).
+  { intros m Hm d. rewrite from_ymd_regular by assumption. rewrite (mts_of_segment f (s mod f + 1) m R) by lia.
+    f_equal. f_equal. pose proof (Z.div_mod s f). lia. }
+  destruct pos.
+  - exists (s / f), (seg_start_month f (s mod f + 1)), 1. split; [exact A |]. split; [apply BACK; lia |].
+    pose proof (dim_range (s / f) (seg_start_month f (s mod f + 1))). repeat split; lia.
+  - exists (s / f), mm, md. split; [exact B |]. split; [apply BACK; lia |]. repeat split; lia.
+  - exists (s / f), (seg_end_month f (s mod f + 1)), (days_in_month (s / f) (seg_end_month f (s mod f + 1))).
+    split; [exact C |]. split; [apply BACK; lia |].
+    pose proof (dim_range (s / f) (seg_end_month f (s mod f + 1))). repeat split; lia.
+Qed.
+
+Theorem ymd_roundtrip_daily : forall n pos, in_calendar n ->
+  exists y m d, to_ymd pos (mkP freq_DAILY n) = Ok (y, m, d) /\ from_ymd freq_DAILY y m d = Ok (mkP freq_DAILY n) /\
+                (y, m, d) = ymd_of_ord n.
+Proof.
+  intros n pos H. destruct (accessors_vs_calendar_daily n H) as (A & _ & _ & _ & _ & _ & _ & B).
+  destruct (ymd_of_ord n) as [[y m] d] eqn:E. exists y, m, d. rewrite A. auto.
+Qed.
+
+(* the calendar periods of the supported range *)
+Definition in_domain (p : period) : Prop :=
+  (is_regular_freq (p_freq p) = true /\ 1 <= p_serial p / p_freq p <= MAXYEAR) \/
+  (p_freq p = freq_DAILY /\ in_calendar (p_serial p)).
+
+Definition cal_freq (g : Z) : Prop := is_regular_freq g = true \/ g = freq_DAILY.
+
+Definition ymd_le (a b : Z * Z * Z) : Prop := a = b \/ ymd_lt a b.
+
+Lemma ord_in_calendar : forall y m d, valid_ymd y m d -> y <= MAXYEAR -> in_calendar (ord_of_ymd y m d).
+Proof.
+  intros y m d V Y. pose proof (ord_of_ymd_range y m d V) as R. destruct V as (Y1 & _).
+  assert (days_before_year 1 <= days_before_year y) by (apply dby_mono; lia).
+  assert (days_before_year (y + 1) <= days_before_year 10000) by (apply dby_mono; unfold MAXYEAR in Y; lia).
+  change (days_before_year 10000) with 3652059 in H0. rewrite dby_1 in H. unfold in_calendar, max_ordinal. lia.
+Qed.
+
+(* the date of a period of the domain at any position is a valid date of the supported range *)
+Lemma domain_date : forall p pos, in_domain p ->
+  exists y m d, to_ymd pos p = Ok (y, m, d) /\ valid_ymd y m d /\ y <= MAXYEAR /\ from_ymd (p_freq p) y m d = Ok p.
+Proof.
+  intros [f s] pos [[R Y] | [E C]]; cbn [p_freq p_serial] in *.
+  - destruct (ymd_roundtrip_regular f s pos R) as (y & m & d & A & B & Ey & Em & Ed).
+    exists y, m, d. pose proof (regular_pos f R) as F. pose proof (Z.mod_pos_bound s f F) as MB.
+    destruct (seg_months_range f (s mod f + 1) R ltac:(lia)) as (M1 & M2 & _).
+    repeat split; try assumption; subst y; lia.
+  - subst f. destruct (ymd_roundtrip_daily s pos C) as (y & m & d & A & B & E).
+    exists y, m, d. pose proof (ymd_of_ord_valid s ltac:(destruct C; lia)) as V. rewrite <- E in V.
+    pose proof (ord_of_ymd_of_ord s) as W. rewrite <- E in W. destruct W as (_ & _ & _ & Ey).
+    repeat split; try assumption; try apply V. subst y. apply (year_in_range s C).
+Qed.
+
+(* from_ymd returns the target-frequency period that contains the date *)
+Lemma from_ymd_contains : forall g y m d, cal_freq g -> valid_ymd y m d -> y <= MAXYEAR ->
+  exists r a c, from_ymd g y m d = Ok r /\ p_freq r = g /\ in_domain r /\
+                to_ymd PStart r = Ok a /\ to_ymd PEnd r = Ok c /\ valid3 a /\ valid3 c /\
+                ord3 a <= ord_of_ymd y m d <= ord3 c.
+Proof.
+  intros g y m d [R | ->] V Y.
+  - pose proof (regular_pos g R) as F. destruct V as (Y1 & M & D).
+    destruct (mts_spec g m R M) as (S & Sm). cbv zeta in S, Sm.
+    set (seg := month_to_segment g m) in *.
+    destruct (year_seg_of_serial g y seg F S) as (Ey & Es).
+    destruct (reg_to_ymd_spec g (y * g + seg - 1) R) as (A & C & _). rewrite Ey, Es in A, C.
+    destruct (seg_months_range g seg R S) as (M1 & M2 & _).
+    eexists. eexists. eexists. split; [apply from_ymd_regular; assumption |]. fold seg.
+    split; [reflexivity |]. split; [left; cbn [p_freq p_serial]; rewrite Ey; split; [assumption | lia] |].
+    split; [exact A |]. split; [exact C |].
+    assert (Va : valid_ymd y (seg_start_month g seg) 1).
+    { unfold valid_ymd. pose proof (dim_range y (seg_start_month g seg)). lia. }
+    assert (Vc : valid_ymd y (seg_end_month g seg) (days_in_month y (seg_end_month g seg))).
+    { unfold valid_ymd. pose proof (dim_range y (seg_end_month g seg)). lia. }
+    split; [exact Va |]. split; [exact Vc |]. cbn [ord3]. split.
+    + apply ord_le_lex; [assumption | unfold valid_ymd; lia |]. lia.
+    + apply ord_le_lex; [unfold valid_ymd; lia | assumption |].
+      destruct (Z.eq_dec m (seg_end_month g seg)) as [E | E]; [right; split; [assumption | rewrite <- E; lia] | left; lia].
+  - pose proof (ord_in_calendar y m d V Y) as C.
+    destruct (accessors_vs_calendar_daily _ C) as (A & _).
+    exists (mkP freq_DAILY (ord_of_ymd y m d)), (y, m, d), (y, m, d).
+    split. { unfold from_ymd. rewrite daily_kind. unfold gen_daily_from_ymd.
+             rewrite (proj2 (date_ok_spec y m d) (conj V Y)). reflexivity. }
+    split; [reflexivity |]. split; [right; split; [reflexivity | exact C] |].
+    rewrite !A, ymd_of_ord_of_ymd by assumption. cbn [valid3 ord3].
+    refine (conj eq_refl (conj eq_refl (conj V (conj V _)))). lia.
+Qed.
+
+
+(* a period built from a calendar date contains that date, and its year / segment accessors agree with the calendar:
+   the year is the date's year and the segment is the one whose months contain the date's month *)
+Theorem from_date_agrees_with_calendar : forall g y m d, is_regular_freq g = true -> valid_ymd y m d -> y <= MAXYEAR ->
+  exists r, from_ymd g y m d = Ok r /\ p_freq r = g /\
+            to_year_segment r = Ok (y, month_to_segment g m) /\
+            1 <= month_to_segment g m <= g /\
+            seg_start_month g (month_to_segment g m) <= m <= seg_end_month g (month_to_segment g m) /\
+            month_to_segment g m = (m - 1) / (12 / g) + 1 /\
+            to_ymd PStart r = Ok (y, seg_start_month g (month_to_segment g m), 1) /\
+            to_ymd PEnd r = Ok (y, seg_end_month g (month_to_segment g m),
+                                days_in_month y (seg_end_month g (month_to_segment g m))).
+Proof.
+  intros g y m d R V Y. destruct V as (Y1 & M & D).
+  pose proof (regular_pos g R) as F. destruct (mts_spec g m R M) as (S & Sm). cbv zeta in S, Sm.
+  set (seg := month_to_segment g m) in *.
+  destruct (year_seg_of_serial g y seg F S) as (Ey & Es).
+  destruct (accessors_vs_calendar_regular g (y * g + seg - 1) R) as (A1 & _ & _ & _ & _ & _ & A7 & A8 & _).
+  cbv zeta in A1, A7, A8. rewrite Ey, Es in A1, A7, A8.
+  exists (mkP g (y * g + seg - 1)). split; [apply from_ymd_regular; assumption |].
+  refine (conj eq_refl (conj A1 (conj S (conj Sm (conj _ (conj A7 A8)))))).
+  destruct (mts_cases m) as (C1 & C2 & C3 & C4). subst seg.
+  destruct (regular_cases g R) as [-> | [-> | [-> | ->]]];
+    [change (12 / 1) with 12 | change (12 / 2) with 6 | change (12 / 4) with 3 | change (12 / 12) with 1]; lia.
+Qed.
+
+Theorem from_date_daily : forall y m d, valid_ymd y m d -> y <= MAXYEAR ->
+  exists r, from_ymd freq_DAILY y m d = Ok r /\ (forall pos, to_ymd pos r = Ok (y, m, d)) /\
+            to_year_segment r = Ok (y, days_before_month y m + d).
+Proof.
+  intros y m d V Y. pose proof (ord_in_calendar y m d V Y) as C.
+  destruct (accessors_vs_calendar_daily _ C) as (A & _ & B & _).
+  exists (mkP freq_DAILY (ord_of_ymd y m d)).
+  split. { unfold from_ymd. rewrite daily_kind. unfold gen_daily_from_ymd.
+           rewrite (proj2 (date_ok_spec y m d) (conj V Y)). reflexivity. }
+  split.
+  - intros pos. rewrite A, ymd_of_ord_of_ymd by assumption. reflexivity.
+  - rewrite B, year_of_ord_of_ymd, doy_of_ord_ymd by assumption. reflexivity.
+Qed.
